@@ -84,6 +84,7 @@ def check(prog, rep, tier):
     rep.rule("C11.mutators-sync", "every public mutator of persisted state reaches __update", floor=1)
     rep.rule("C11.path-provenance", "paths handed to open / copyfile / _load are the resolved path, without lossy projection", floor=4)
     rep.rule("C11.creation-truncates", "every open-for-writing reached from the constructor discards what the path held before (mode w/x, O_TRUNC/O_EXCL, or an explicit truncate to 0)", floor=1)
+    rep.rule("C11.creation-layout", "a created file is ceil(bits/8) zero bytes followed by the footer (judged where the creation is a tofile / seek / write sequence on a file object)", floor=0)
     rep.rule("C11.reload-count", "reopening restores the stored element count", floor=1)
     rep.trust("OS file semantics: a flushed mmap store and a flushed 8-byte write reach the file; atomicity of that write is not claimed")
     upd = prog.method(CTX, "__update")
@@ -386,6 +387,76 @@ def check(prog, rep, tier):
         pass  # how a new file is created is not recognised: the rule's floor turns this into "undecided" (exit 2), never a silent pass
     else:
         rep.ok("C11.creation-truncates", f"{CTX}.__init__: {len(creators)} creating open(s), each truncating")
+    # ---------------------------------------------------------------- (e4) layout of the created file
+    # the file a new filter writes is <bit array of ceil(bits/8) zero bytes><footer>: the footer write must start exactly there.
+    # Judged where the creation is a tofile / seek / write sequence on a Python file object (other forms give no verdict here).
+    import struct as _st
+    laid, badl = 0, None
+    f = prog.method(CTX, "__init__")
+    for p in paths(prog, CTX, f, inline="deep"):
+        if p.exit[0] != "return":
+            continue
+        handles = [strip_epochs(e.result) for e in p.events if e.kind == "call" and e.name == "open" and len(e.args) > 1 and e.args[1][0] == "c"
+                   and isinstance(e.args[1][1], str) and ("w" in e.args[1][1] or "x" in e.args[1][1]) and e.d.get("result") is not None]
+        for h in handles:
+            pos, known = C(0), True
+            for e in p.events:
+                if e.kind != "call":
+                    continue
+                r = strip_epochs(e.recv) if e.recv is not None else None
+                if e.name == "tofile" and e.args and strip_epochs(e.args[0]) == h and r is not None:
+                    n = None
+                    if r[0] in ("nary", "bin") and r[1] == "*":
+                        fs = list(r[2]) if r[0] == "nary" else [r[2], r[3]]
+                        arrs = [x for x in fs if x[0] == "newb" and x[1] == "array" and len(x[3]) == 2 and x[3][1] == ("lst", (C(0),))]
+                        rest = [x for x in fs if x not in arrs]
+                        if len(arrs) == 1 and len(rest) == 1:
+                            tc = arrs[0][3][0]
+                            size = _st.calcsize(tc[1]) if tc[0] == "c" else (1 if strip_epochs(tc) == ("f", SELF, "_typecode", 0) else None)
+                            n = norm(("bin", "*", rest[0], C(size))) if size else None
+                    if n is None:
+                        known = False
+                    else:
+                        pos = norm(("bin", "+", pos, n))
+                elif r == h and e.name == "seek":
+                    if len(e.args) == 1 or (len(e.args) == 2 and strip_epochs(e.args[1]) in (C(0), ("ext", "os", "SEEK_SET"))):
+                        pos = strip_epochs(e.args[0])
+                    else:
+                        known = False
+                elif r == h and e.name == "write" and e.args:
+                    a = strip_epochs(e.args[0])
+                    if a[0] == "pack":
+                        if not known:
+                            break
+                        # the footer: everything before it is the bit array
+                        bits = [n_ for n_ in walk(pos) if (n_[0] == "sub" and n_[1][0] == "ret" and n_[1][1].endswith("._get_optimized_params") and n_[2] == C(2))
+                                or (n_[0] == "f" and n_[2] == "_num_bits") or (n_[0] == "call" and n_[1] == ("ext", "math", "ceil"))]  # (the bit count is itself a ceil(...))
+                        blen = [n_ for n_ in walk(pos) if n_[0] == "f" and n_[2] == "_bloom_length"]
+                        cands = []
+                        lastlen = [strip_epochs(x.value) for x in p.events[:p.events.index(e)] if x.kind == "setfield" and x.base == SELF and x.name == "_bloom_length"]
+                        if lastlen:
+                            cands.append(canon(lastlen[-1]))
+                        for X in set(bits):
+                            cands += [canon(("call", ("ext", "math", "ceil"), (("bin", "/", X, C(8)),), ())), canon(("call", ("ext", "math", "ceil"), (("bin", "/", X, C(8.0)),), ())),
+                                      canon(("bin", "//", ("bin", "+", X, C(7)), C(8))), canon(("bin", "+", ("bin", "//", ("bin", "-", X, C(1)), C(8)), C(1)))]
+                        laid += 1
+                        if canon(pos) not in cands and not (blen and canon(pos) == canon(blen[0])):
+                            badl = badl or (e, pos)
+                        break
+                    elif a[0] == "c" and isinstance(a[1], bytes):
+                        pos = norm(("bin", "+", pos, C(len(a[1]))))
+                    elif a[0] == "call" and a[1] == ("g", "bytes") and len(a[2]) == 1:
+                        pos = norm(("bin", "+", pos, a[2][0]))
+                    else:
+                        known = False
+    if badl:
+        rep.bad("C11.creation-layout", f"{CTX}.__init__", f"footer written at byte {nshow(badl[1])}",
+                f"a new filter's footer is written at byte {nshow(badl[1])} of the file, which is not (a known spelling of) ceil(bits / 8), the length of the bit array: "
+                "for some geometries the file carries a stray byte (or lacks one) between the bits and the footer, and is not the export of an empty filter", badl[0].where())
+    elif laid:
+        rep.ok("C11.creation-layout", f"{CTX}.__init__: footer written right after ceil(bits/8) bytes")
+    else:
+        rep.notes.append("C11.creation-layout: the creation is not a tofile / seek / write sequence on a Python file object; its layout is not judged by this rule")
     # ---------------------------------------------------------------- (f) reload
     ld = prog.method(CTX, "_load")
     okr = True
@@ -436,6 +507,7 @@ MUTANTS = [
     Mutant("D12 re-introduced: clear without sync", _B, del_stmt("BloomFilterOnDisk", "clear", "self.__update()"), rule="C11.mutators"),
     Mutant("export truncates the file to the bit array", _B, insert_stmt("BloomFilterOnDisk", "export", "self.__file_pointer.truncate(self.bloom_length)"), rule="C11.file-writers"),
     Mutant("resolve_path memoised with lru_cache", "utilities.py", _decorate("resolve_path", "lru_cache(maxsize=256)"), rule="C11.path"),
+    Mutant("creation writes one zero byte too many before the footer", _B, replace_expr("BloomFilterOnDisk", "_load_init", "array(self._typecode, [0]) * self.bloom_length", "array(self._typecode, [0]) * (self.bloom_length + 1)"), rule="C11.creation-layout"),
     Mutant("creation opens the file for appending", _B, replace_expr("BloomFilterOnDisk", "_load_init", "open(self._filepath, 'wb')", "open(self._filepath, 'ab')"), rule="C11.creation-truncates"),
     Mutant("creation through os.open without O_TRUNC", _B, replace_expr("BloomFilterOnDisk", "_load_init", "open(self._filepath, 'wb')", "os.fdopen(os.open(self._filepath, os.O_WRONLY | os.O_CREAT), 'wb')"), rule="C11.creation-truncates"),
     Mutant("creation through os.open with O_TRUNC", _B, replace_expr("BloomFilterOnDisk", "_load_init", "open(self._filepath, 'wb')", "os.fdopen(os.open(self._filepath, os.O_WRONLY | os.O_CREAT | os.O_TRUNC), 'wb')"), expect="silent"),
